@@ -485,6 +485,66 @@ def inbound_real_probe():
         out["raised"] += [repr(e)[:100] for e in w.logged] + [repr(e)[:100] for s_ in w.sides.values() for e in s_.errors]
     finally:
         w.close()
+    out["apiSeqs"] = [subchannel_api_seq(seq, expect) for seq, expect in API_SEQS]
+    return out
+
+
+# what the application of a subchannel may do with its transport, and whether the peer's data must flow afterwards: "exactly while at
+# least one subchannel's application has asked for a pause" - the harness keeps its own account of who is asking (pause: yes;
+# resume / stop: no longer; loseConnection says nothing about it)
+API_SEQS = [
+    (["pause A", "lose A", "resume A"], True),
+    (["pause A", "stop A"], True),
+    (["pause A", "pause B", "resume A"], False),
+    (["pause A", "pause B", "resume A", "resume B"], True),
+    (["pause A", "pause B", "resume B", "lose A", "resume A"], True),
+    (["pause A", "pause A", "resume A"], True),
+    (["pause A", "resume A", "resume A", "pause B"], False),
+    (["lose A", "pause A", "resume A"], True),
+]
+
+
+def subchannel_api_seq(seq, expect_flow):
+    """two subchannels L -> F over a real DilatedConnectionProtocol pair; F's applications call their transports as `seq` says; then
+    L writes on both: does anything reach F?"""
+    from ..dilreal import RealLinkWorld
+    out = {"seq": seq, "expectFlow": expect_flow, "flows": False, "raised": []}
+    w = RealLinkWorld()
+    try:
+        w.connect()
+        w.listen("F", "p")
+        pa = w.open("L", "p")
+        pb = w.open("L", "p")
+        pa.transport.write(b"a0")
+        pb.transport.write(b"b0")
+        w.pump()
+        built = w.sides["F"].factories["p"].built
+        apps = {"A": built[0], "B": built[1]}
+        transports = {k: a.transport for k, a in apps.items()}
+
+        def got():
+            return sum(len([e for e in a.log if e[0] == "data"]) for a in apps.values())
+        for step in seq:
+            what, which = step.split()
+            t = transports[which]
+            try:
+                {"pause": t.pauseProducing, "resume": t.resumeProducing, "stop": t.stopProducing, "lose": t.loseConnection}[what]()
+            except Exception as e:
+                out["raised"].append("%s: %s: %s" % (step, type(e).__name__, str(e)[:80]))
+            w.pump()
+        n0 = got()
+        for p_, tag in ((pa, b"a1"), (pb, b"b1")):
+            try:
+                p_.transport.write(tag)
+            except Exception:
+                pass                    # (a subchannel the peer has closed meanwhile)
+        w.pump()
+        out["flows"] = got() > n0
+        out["raised"] += [repr(e)[:100] for e in w.logged] + [repr(e)[:100] for s_ in w.sides.values() for e in s_.errors]
+    except Exception as e:
+        out["raised"].append("harness: %s: %s" % (type(e).__name__, str(e)[:100]))
+    finally:
+        w.close()
     return out
 
 
